@@ -43,31 +43,58 @@ class Extra:
         pass
 
 
-def build_sync(cycle, nested, cb_points, sched, listener, attach=False):
+def shape(cycle, ladder):
+    """States and events of the subject.  cycle mode: `tick` advances a ring of `cycle` states (every event is accepted in every
+    state).  ladder mode: sender 0 sends e0, e1, ... where e_k is only valid in state s_k (each one is enabled by the one before it:
+    the per-sender FIFO guarantee makes every one of them valid when its turn comes), `tick` is a self-loop in every state."""
+    ns = {}
+    n = ladder + 1 if ladder else cycle
+    S = [State(initial=(i == 0)) for i in range(n)]
+    for i, s in enumerate(S):
+        ns[f"s{i}"] = s
+    if ladder:
+        tick = S[0].to.itself()
+        for i in range(1, n):
+            tick = tick | S[i].to.itself()
+        for k in range(ladder):
+            ns[f"e{k}"] = S[k].to(S[k + 1])
+        events = ["tick"] + [f"e{k}" for k in range(ladder)]
+    else:
+        tick = S[0].to(S[1 % cycle])
+        for i in range(1, cycle):
+            tick = tick | S[i].to(S[(i + 1) % cycle])
+        events = ["tick"]
+    ns["tick"] = tick
+    return ns, events
+
+
+def event_of(case, w, k):
+    return f"e{k}" if case.get("ladder") and w == 0 else "tick"
+
+
+def tag_of(case, w, k):
+    """what the sender passes along: normally its own (who, k); in `untagged` mode all events are indistinguishable"""
+    return (-1, -1) if case.get("untagged") else (w, k)
+
+
+def build_sync(cycle, nested, cb_points, sched, listener, attach=False, ladder=0, allow=False):
     log = []
     nest = {tuple(x) for x in nested}
 
-    class Rec:
-        def before_tick(self, who, k):
-            log.append(("begin", who, k, threading.current_thread()._wid if hasattr(threading.current_thread(), "_wid") else None))
-            for _ in range(cb_points):
-                sched.point()
+    def before(self, who, k):
+        log.append(("begin", who, k, threading.current_thread()._wid if hasattr(threading.current_thread(), "_wid") else None))
+        for _ in range(cb_points):
+            sched.point()
 
-        def after_tick(self, who, k):
-            for _ in range(cb_points):
-                sched.point()
-            log.append(("end", who, k, None))
+    def after(self, who, k):
+        for _ in range(cb_points):
+            sched.point()
+        log.append(("end", who, k, None))
 
-    ns = {}
-    S = [State(initial=(i == 0)) for i in range(cycle)]
-    for i, s in enumerate(S):
-        ns[f"s{i}"] = s
-    tick = S[0].to(S[1 % cycle])
-    for i in range(1, cycle):
-        tick = tick | S[i].to(S[(i + 1) % cycle])
-    ns["tick"] = tick
+    ns, events = shape(cycle, ladder)
+    Rec = type("Rec", (), {f"{grp}_{ev}": fn for ev in events for grp, fn in (("before", before), ("after", after))})
 
-    def on_tick(self, who, k):
+    def on_any(self, who, k):
         sched.point()
         if attach and (who, k) == (0, 0):
             self.add_listener(Extra())  # attaching a listener does not open the processing section to other senders
@@ -77,18 +104,19 @@ def build_sync(cycle, nested, cb_points, sched, listener, attach=False):
             if r is not None:
                 log.append(("nested-returned", who, k, r))
 
-    ns["on_tick"] = on_tick
+    for ev in events:
+        ns[f"on_{ev}"] = on_any
     if not listener:
-        ns["before_tick"] = Rec.before_tick
-        ns["after_tick"] = Rec.after_tick
+        ns.update({k_: v for k_, v in vars(Rec).items() if k_.startswith(("before_", "after_"))})
     import types
 
     cls = types.new_class("Conc", (StateMachine,), {}, lambda d: d.update(ns))
-    sm = cls(listeners=[Rec()]) if listener else cls()
+    kw = {"allow_event_without_transition": True} if allow else {}
+    sm = cls(listeners=[Rec()], **kw) if listener else cls(**kw)
     return sm, log
 
 
-def check_history(log, sent, cycle, state_id, stranded_hint=""):
+def check_history(log, sent, cycle, state_id, stranded_hint="", ladder=0):
     open_ = None
     for kind, w, k, _ in log:
         if kind == "nested-returned":
@@ -112,14 +140,19 @@ def check_history(log, sent, cycle, state_id, stranded_hint=""):
         ks = [k for (ww, k) in done if ww == w and not isinstance(k, tuple)]
         if ks != sorted(ks):
             return "order", f"events of sender {w} were processed in the order {ks}"
-    exp = f"s{len(sent) % cycle}"
+    exp = f"s{ladder}" if ladder else f"s{len(sent) % cycle}"
     if state_id != exp:
         return "state", f"final state {state_id}, expected {exp} after {len(sent)} events"
     return None
 
 
-def sent_events(senders, nested):
-    return [(w, k) for w, n in enumerate(senders) for k in range(n)] + [(w, ("n", k)) for (w, k) in map(tuple, nested)]
+def sent_events(senders, nested, case=None):
+    case = case or {}
+    return [tag_of(case, w, k) for w, n in enumerate(senders) for k in range(n)] + [(w, ("n", k)) for (w, k) in map(tuple, nested)]
+
+
+def n_events(case, w):
+    return case["ladder"] if case.get("ladder") and w == 0 else case["senders"][w]
 
 
 # ------------------------------------------------------------------------------------------ threads
@@ -128,14 +161,16 @@ def run_threads(case, trace_names=False):
     sched = ThreadSched(len(senders), [tuple(x) for x in case.get("schedule", [])], trace_names=trace_names)
     with warnings.catch_warnings():
         warnings.simplefilter("ignore")
-        sm, log = build_sync(case.get("cycle", 1), case.get("nested", []), case.get("cb_points", 0), sched, case.get("listener", False), case.get("attach", False))
+        sm, log = build_sync(case.get("cycle", 1), case.get("nested", []), case.get("cb_points", 0), sched, case.get("listener", False), case.get("attach", False),
+                             ladder=case.get("ladder", 0), allow=case.get("allow", False))
     returned = {}
 
     def body(w):
         def f():
             for k in range(senders[w]):
-                returned[(w, k)] = sm.send("tick", who=w, k=k)
-                if k + 1 < senders[w]:
+                who, kk = tag_of(case, w, k)
+                returned[(w, k)] = sm.send(event_of(case, w, k), who=who, k=kk)
+                if k + 1 < senders[w] and case.get("idle", True):
                     sched.idle()
         return f
 
@@ -143,7 +178,7 @@ def run_threads(case, trace_names=False):
     if sched.errors:
         w, e = sched.errors[0]
         return sched, ("sender-exception", f"sender {w} raised {type(e).__name__}: {e}"), log
-    bad = check_history(log, sent_events(senders, case.get("nested", [])), case.get("cycle", 1), sm.current_state.id)
+    bad = check_history(log, sent_events(senders, case.get("nested", []), case), case.get("cycle", 1), sm.current_state.id, ladder=case.get("ladder", 0))
     return sched, bad, log
 
 
@@ -159,31 +194,27 @@ def run_case(case):
     labels = {"threads", f"senders:{len(case['senders'])}", f"preemptions:{len(case.get('schedule', []))}"}
     if bad:
         return outcome(False, "C06:" + bad[0], f"threads, senders {case['senders']}, schedule {case.get('schedule')}: {bad[1]}", labels=labels)
-    nt = contended(log)
+    nt = contended(log) if not case.get("untagged") else sched.switches > 0
     if nt:
         labels.add("contended")
+    for m in ("ladder", "untagged", "allow"):
+        if case.get(m):
+            labels.add(m)
     return outcome(True, nontrivial=nt, labels=labels, stats={"schedules": 1, "steps": sched.step, "switches": sched.switches, "infeasible": sched.infeasible})
 
 
 # ------------------------------------------------------------------------------------------ asyncio
-def build_async(cycle, nested, sched):
+def build_async(cycle, nested, sched, ladder=0, allow=False):
     log = []
     nest = {tuple(x) for x in nested}
-    ns = {}
-    S = [State(initial=(i == 0)) for i in range(cycle)]
-    for i, s in enumerate(S):
-        ns[f"s{i}"] = s
-    tick = S[0].to(S[1 % cycle])
-    for i in range(1, cycle):
-        tick = tick | S[i].to(S[(i + 1) % cycle])
-    ns["tick"] = tick
+    ns, events = shape(cycle, ladder)
 
-    async def before_tick(self, who, k):
+    async def before(self, who, k):
         t = asyncio.current_task()
         log.append(("begin", who, k, getattr(t, "_wid", None)))
         await sched.point(("before", who, k))
 
-    async def on_tick(self, who, k):
+    async def on_any(self, who, k):
         await sched.point(("on", who, k))
         if (who, k) in nest:
             r = self.send("tick", who=who, k=("n", k))
@@ -192,15 +223,16 @@ def build_async(cycle, nested, sched):
             if r is not None:
                 log.append(("nested-returned", who, k, r))
 
-    async def after_tick(self, who, k):
+    async def after(self, who, k):
         await sched.point(("after", who, k))
         log.append(("end", who, k, None))
 
-    ns.update(before_tick=before_tick, on_tick=on_tick, after_tick=after_tick)
+    for ev in events:
+        ns.update({f"before_{ev}": before, f"on_{ev}": on_any, f"after_{ev}": after})
     import types
 
     cls = types.new_class("AConc", (StateMachine,), {}, lambda d: d.update(ns))
-    return cls(), log
+    return cls(**({"allow_event_without_transition": True} if allow else {})), log
 
 
 def run_async(case):
@@ -211,7 +243,7 @@ def run_async(case):
         sched = GateSched(case.get("choices", [0]), cycle=not case.get("exact"))
         with warnings.catch_warnings():
             warnings.simplefilter("ignore")
-            sm, log = build_async(case.get("cycle", 1), case.get("nested", []), sched)
+            sm, log = build_async(case.get("cycle", 1), case.get("nested", []), sched, ladder=case.get("ladder", 0), allow=case.get("allow", False))
         if case.get("activate"):
             await sm.activate_initial_state()
         styles = case.get("styles", [])
@@ -219,12 +251,13 @@ def run_async(case):
         async def sender(w):
             for k in range(senders[w]):
                 style = styles[w] if w < len(styles) else "await"
+                who, kk = tag_of(case, w, k)
                 if style == "deferred":
-                    pending = sm.send("tick", who=w, k=k)  # the event is enqueued here ...
+                    pending = sm.send(event_of(case, w, k), who=who, k=kk)  # the event is enqueued here ...
                     await sched.point(("idle-before-await", w, k))
                     await pending  # ... and the processing loop entered only now
                 else:
-                    await sm.send("tick", who=w, k=k)
+                    await sm.send(event_of(case, w, k), who=who, k=kk)
                 if style == "idle":
                     await sched.point(("idle", w, k))
 
@@ -240,15 +273,18 @@ def run_async(case):
         for t in tasks:
             if t.exception() is not None:
                 return ("sender-exception", f"sender task raised {t.exception()!r}"), log, sched
-        return check_history(log, sent_events(senders, case.get("nested", [])), case.get("cycle", 1), sm.current_state.id), log, sched
+        return check_history(log, sent_events(senders, case.get("nested", []), case), case.get("cycle", 1), sm.current_state.id, ladder=case.get("ladder", 0)), log, sched
 
     bad, log, sched = asyncio.run(main())
     case["_branching"] = sched.branching
     if bad:
         return outcome(False, "C06:" + bad[0], f"asyncio, senders {senders}, styles {case.get('styles')}, gate order {sched.trace[:30]}: {bad[1]}", labels=labels)
-    nt = contended(log)
+    nt = contended(log) if not case.get("untagged") else sched.released > 2
     if nt:
         labels.add("contended")
+    for m in ("ladder", "untagged", "allow"):
+        if case.get(m):
+            labels.add(m)
     for s_ in set(case.get("styles", [])):
         labels.add("style:" + s_)
     return outcome(True, nontrivial=nt, labels=labels, stats={"schedules": 1, "gates_released": sched.released})
@@ -268,7 +304,8 @@ def is_dispatch(name):
 
 def extra(tier, seed, shard, nshards):
     configs = [{"senders": [1, 1]}, {"senders": [1, 2]}, {"senders": [2, 1]}, {"senders": [1, 1], "cb_points": 1, "listener": True},
-               {"senders": [1, 1], "attach": True}]
+               {"senders": [1, 1], "attach": True},
+               {"senders": [2, 1], "ladder": 2, "allow": True, "idle": False}, {"senders": [1, 2], "untagged": True, "idle": False, "cb_points": 1}]
     if tier == "thorough":
         configs += [{"senders": [2, 2]}, {"senders": [1, 2], "nested": [[0, 0]]}, {"senders": [2, 1], "nested": [[1, 0]], "cycle": 2}, {"senders": [1, 1], "cycle": 3, "nested": [[0, 0], [1, 0]]}]
     total = nt_total = st_steps = 0
@@ -326,7 +363,8 @@ def extra(tier, seed, shard, nshards):
     # asyncio: EVERY order in which the controller can release the waiting gates, for the small configurations
     # (odometer over the schedule tree; the branching factor at each release is the number of waiting gates)
     aconfigs = [{"senders": [1, 1], "styles": ["await", "await"]}, {"senders": [1, 1], "styles": ["deferred", "await"]},
-                {"senders": [1, 1], "styles": ["await", "await"], "nested": [[0, 0]]}]
+                {"senders": [1, 1], "styles": ["await", "await"], "nested": [[0, 0]]},
+                {"senders": [2, 1], "styles": ["deferred", "await"], "ladder": 2, "allow": True}, {"senders": [1, 1, 1], "styles": ["await", "deferred", "deferred"], "untagged": True}]
     if tier == "thorough":
         aconfigs += [{"senders": [1, 2], "styles": ["deferred", "idle"]}, {"senders": [2, 1], "styles": ["await", "deferred"], "nested": [[1, 0]]},
                      {"senders": [1, 1, 1], "styles": ["await", "deferred", "await"]}]
@@ -372,19 +410,35 @@ def hot_steps(cfg_key, cfg):
 
 
 @st.composite
+def mode(draw, senders, nested=()):
+    """cycle (every event valid everywhere, tagged) / ladder (sender 0's events enable one another; tolerant machine) / untagged
+    (all events are the same event with equal arguments: nothing may be merged or de-duplicated)"""
+    r = draw(st.integers(0, 9))
+    if r < 3:
+        return {"ladder": senders[0], "allow": draw(st.integers(0, 3)) > 0}
+    if r < 5:
+        return {"untagged": True, "allow": draw(st.booleans()), "nested": []}
+    return {"allow": draw(st.integers(0, 3)) == 0}
+
+
+@st.composite
 def cases(draw, tier):
     if draw(st.integers(0, 9)) < 4:
         n = draw(st.integers(2, 4))
         senders = [draw(st.integers(1, 3)) for _ in range(n)]
         nested = [[w, k] for w in range(n) for k in range(senders[w]) if draw(st.integers(0, 9)) < 3]
-        return {"engine": "asyncio", "cycle": draw(st.integers(1, 3)), "senders": senders, "nested": nested, "activate": draw(st.booleans()),
-                "styles": [draw(st.sampled_from(["await", "deferred", "idle", "deferred"])) for _ in range(n)],
-                "choices": draw(st.lists(st.integers(0, 7), min_size=1, max_size=40))}
+        return dict({"engine": "asyncio", "cycle": draw(st.integers(1, 3)), "senders": senders, "nested": nested, "activate": draw(st.booleans()),
+                     "styles": [draw(st.sampled_from(["await", "deferred", "idle", "deferred"])) for _ in range(n)],
+                     "choices": draw(st.lists(st.integers(0, 7), min_size=1, max_size=40))}, **draw(mode(senders, nested)))
     n = draw(st.sampled_from([2, 2, 3, 3, 4]))
     senders = [draw(st.integers(1, 3 if n < 4 else 2)) for _ in range(n)]
     nested = [[w, k] for w in range(n) for k in range(senders[w]) if draw(st.integers(0, 9)) < 2]
     cfg = {"engine": "threads", "cycle": draw(st.integers(1, 3)), "senders": senders, "nested": nested, "cb_points": draw(st.integers(0, 2)),
            "listener": draw(st.booleans()), "attach": draw(st.integers(0, 3)) == 0}
+    cfg.update(draw(mode(senders)))
+    if cfg.get("untagged"):
+        cfg["nested"], cfg["attach"] = [], False
+    cfg["idle"] = draw(st.integers(0, 2)) > 0  # senders yield voluntarily between their sends, or send back to back
     total, hot = hot_steps(repr(sorted(cfg.items())), cfg)
     sch = []
     for _ in range(draw(st.integers(1, 4))):
